@@ -157,6 +157,9 @@ func probeOrder(pk *packages.Package, fn *core.FuncInfo) []string {
 		if !ok || ta.Type == nil {
 			continue
 		}
+		if _, anon := ta.Type.(*ast.InterfaceType); anon && !returnsAnything(is.Body.List) {
+			continue // a capability test that does not leave the function (e.g. the reset before decoding) is not a probe
+		}
 		t := info.TypeOf(ta.Type)
 		cat := "other"
 		if fam, ok := familyOfTypeExpr(info, ta.Type); ok {
@@ -194,6 +197,8 @@ func checkC11(r *core.Result) {
 	r.Floor("MsgType switches", len(switches), 3)
 	checkRegions(r, prog, root, regs)
 	checkMsgSwitches(r, prog, root, switches, map[string]bool{"Reset": true})
+	// D10: reflect.TypeOf(nil interface) is a nil reflect.Type: method calls on such a value need a nil test
+	checkReflectTypeNil(r, prog, root)
 	// D9: Marshal / Unmarshal / Size probes
 	checkProbeForwarders(r, prog, root)
 	// D8: Clone / Equal / MarshalText hand back the owning runtime's own result
@@ -371,4 +376,72 @@ func checkC11(r *core.Result) {
 		}
 		r.Ob("D7", "GrpcCodec."+m+" forwards to csproto."+m, prog.Pos(f.Pos()), ok, "the codec method must return csproto."+m+"(its parameters)")
 	}
+}
+
+// checkReflectTypeNil (D10): in message_types.go every method call on a reflect.Type value (the result of
+// reflect.TypeOf on the caller's value, which is nil for an untyped nil) is guarded by a nil test of that value:
+// an earlier `if t == nil { return … }`, or `t == nil || t.M()…` / `t != nil && t.M()…` in the same condition.
+func checkReflectTypeNil(r *core.Result, prog *core.Program, pk *packages.Package) {
+	info := pk.TypesInfo
+	n := 0
+	for _, f := range funcsOfFiles(pk, "message_types.go") {
+		parents := parentMap(f.Decl.Body)
+		ast.Inspect(f.Decl.Body, func(nn ast.Node) bool {
+			c, ok := nn.(*ast.CallExpr)
+			if !ok {
+				return true
+			}
+			se, ok := c.Fun.(*ast.SelectorExpr)
+			if !ok {
+				return true
+			}
+			id, ok := se.X.(*ast.Ident)
+			if !ok {
+				return true
+			}
+			obj := info.Uses[id]
+			if obj == nil || obj.Type().String() != "reflect.Type" {
+				return true
+			}
+			n++
+			guarded := false
+			isNilCmp := func(e ast.Expr, op token.Token) bool {
+				b, ok := e.(*ast.BinaryExpr)
+				if !ok || b.Op != op || !isNilIdentExpr(b.Y) {
+					return false
+				}
+				x, ok := b.X.(*ast.Ident)
+				return ok && info.Uses[x] == obj
+			}
+			// same condition
+			for cur := ast.Node(c); cur != nil; cur = parents[cur] {
+				if b, ok := parents[cur].(*ast.BinaryExpr); ok && b.Y == cur {
+					if (b.Op == token.LOR && isNilCmp(b.X, token.EQL)) || (b.Op == token.LAND && isNilCmp(b.X, token.NEQ)) {
+						guarded = true
+					}
+				}
+			}
+			// earlier early return
+			for _, st := range f.Decl.Body.List {
+				if st.Pos() >= c.Pos() {
+					break
+				}
+				if is, ok := st.(*ast.IfStmt); ok && is.Init == nil && len(is.Body.List) == 1 {
+					if _, isRet := is.Body.List[0].(*ast.ReturnStmt); isRet {
+						cond := is.Cond
+						if isNilCmp(cond, token.EQL) {
+							guarded = true
+						}
+						if b, ok := cond.(*ast.BinaryExpr); ok && b.Op == token.LOR && (isNilCmp(b.X, token.EQL) || isNilCmp(b.Y, token.EQL)) {
+							guarded = true
+						}
+					}
+				}
+			}
+			r.Ob("D10", f.Name+" :: "+types.ExprString(c)+" on a possibly nil reflect.Type", prog.Pos(c.Pos()), guarded,
+				"reflect.TypeOf of an untyped nil is a nil reflect.Type; calling a method on it panics, so MsgType(nil) - and with it Clone(nil), Equal(nil, nil), MarshalText(nil) - panic instead of giving the documented result for unsupported values")
+			return true
+		})
+	}
+	r.Counts["method calls on reflect.Type values"] = n
 }
